@@ -48,6 +48,12 @@ def stepLine (z : ZSt) (ws : List String) : ZSt × String :=
     | some d => (zstep z (.other (.tick d)), "ok")
     | none => (z, "bad-op")
   | ["reconn"] => (zstep z .reconnect, "ok")
+  | ["rst", lw] =>
+    -- the monitor process restarts: empty state at the current time, the suspension table it reads back;
+    -- the registration-time deliveries of its new watches follow as `mon` / `sched` lines
+    match natList? lw with
+    | some lw => ({ st := { St.init with now := z.st.now, lastWaited := lw } }, "ok")
+    | none => (z, "bad-op")
   | ["eval", o] =>
     let oc := parseOutcomes o
     let r := (reevaluate z.st oc).2
